@@ -788,6 +788,8 @@ static void end_scenario (void)
 	fflush (evf) ;
 }
 
+static void *warm_thread (void *a) { return a ; }
+
 int main (int argc, char **argv)
 {	if (argc < 3) { fprintf (stderr, "usage: sfdrive script events [--from k] [--timeout s]\n") ; return 2 ; }
 	int from = 0 ;
@@ -817,6 +819,7 @@ int main (int argc, char **argv)
 	{	DIR *d = opendir ("/proc/self/fd") ; if (d) closedir (d) ; sf_error (NULL) ; sf_strerror (NULL) ;
 		time_t t0 = 0 ; struct tm tmv ; char tb [64] ; tzset () ; gmtime_r (&t0, &tmv) ; localtime_r (&t0, &tmv) ; strftime (tb, sizeof (tb), "%c", &tmv) ;
 		snprintf (tb, sizeof (tb), "%f %g", 1.5, 2.5e-7) ; (void) strtod ("1.5", NULL) ;
+		{ pthread_t th ; if (pthread_create (&th, NULL, warm_thread, NULL) == 0) pthread_join (th, NULL) ; }
 		}
 	size_t cap = 1 << 24 ; char *line = malloc (cap) ; int idx = -1 ; int skipping = 0 ;
 	while (fgets (line, (int) cap, sf))
